@@ -8,7 +8,7 @@
    while an unquoted one expands $VAR, `cmd`, $(cmd) and backslashes,
    (3) $( ) strips trailing newlines, (4) names must be identifiers.
    Values are sequences of TOKENS: "dollar" ($CANARYVAR), "bq" (`touch c`), "cmd"
-   ($(touch c)), "sq", "dq", "bs", "nl", "EOF" (the three letters), "a", "semi".
+   ($(touch c)), "sq", "dq", "bs", "nl", "tab" (a leading tab is what <<- would strip), "EOF" (the three letters), "a", "semi".
    TLC checks Decode(Build(env)) = env up to trailing newlines and that nothing ran,
    for every map of <=2 variables with values of <=MaxTok tokens; Variant
    "unquoted" (SSH builder before the fix) and "consttag" (terminator = the constant
@@ -16,7 +16,7 @@
 EXTENDS Naturals, Sequences, FiniteSets, TLC, Json
 
 CONSTANTS MaxTok, Variant, Emit
-Tokens == {"dollar", "bq", "cmd", "sq", "dq", "bs", "nl", "EOF", "a", "semi"}
+Tokens == {"dollar", "bq", "cmd", "sq", "dq", "bs", "nl", "tab", "EOF", "a", "semi"}
 Values == UNION { [1..n -> Tokens] : n \in 0..MaxTok }
 Active == {"dollar", "bq", "cmd", "bs"}            \* interpreted inside an unquoted heredoc
 Runs == {"bq", "cmd"}                                \* would run a command
